@@ -916,6 +916,12 @@ def run(chk):
     for (c, p), m in zip(recs, model_out):
         tag = c["tag"]
         rerun = "echo '%s' | %s c19 %s" % (c["line"], HX, c["mode"])
+        if "error" in p and any(n > 28 for n in c["precs"].values()):
+            # a display precision beyond rust_decimal's 28 places (reachable only through the API, never from
+            # `okane format`, whose context carries no precision): outside the representable range, recorded only
+            chk.case(c["line"])
+            chk.count("precision > 28 places: printer error recorded, not judged")
+            continue
         if "error" in p:
             chk.case(c["line"])
             chk.oracle_failures += 1
